@@ -200,6 +200,10 @@ RSLine(s) ==
   LET r == Parse(s)
       c == ParseAsCoded(s)
   IN [rs |-> s,
+      kind |-> IF r = ParseErr THEN "malformed"
+               ELSE IF r.tag # "" THEN (IF r.force THEN "tag-forced" ELSE "tag")
+               ELSE IF r.force /\ r.neg THEN "force-negate"
+               ELSE IF IsGlob(r.src) THEN "glob" ELSE "plain",
       ok |-> B2S(r # ParseErr),
       rec |-> RecOut(r),
       rows |-> {Row(r, n) : n \in MatchNames},
